@@ -29,7 +29,8 @@ Decided:
          next() result on every normal path; _expires is stamped only when absent -- as the cookie says after the endpoint
          ran: through a membership test or a lookup with a sentinel default -- and expiry is numeric, and what is stamped
          is the sum of one clock reading and self.expiry (no term subtracted, none missing); JSONCookie.set_expires records
-         its argument under the key the dependency compares with the clock, on every path.
+         its argument under the key the dependency compares with the clock, on every path it takes for a time -- evaluated over
+         the kinds of argument None / 0 / non-zero number / NOW marker: a guard on the truth value excludes 0, a legal time.
   R16.e  per-request state: no write of request() (attribute / item store, delete, mutating method call, global
          assignment; in the method itself or in a method of the class it calls) goes to an object that outlives the call --
          the middleware object, its class, a module-level container, a mutable default, or anything reached through
@@ -49,7 +50,10 @@ Decided:
          neither the stamp nor the expires / session_expires handed to save_cookie (which the dependency signs into the cookie as
          _expires) derives from the request other than through the verified cookie; the expiry handed to save_cookie is the
          cookie's own _expires entry, read after the endpoint ran (the dependency overwrites the entry with what it is given),
-         or anything at all only where the cookie has none.
+         or anything at all only where the cookie has none -- followed through conversions and accessor methods of the cookie
+         class -- and, evaluated over a finite domain of kinds of time value (epoch number / aware datetime / naive datetime
+         holding UTC / naive datetime holding local time), is of a kind the dependency reads as the instant that was meant (how it
+         reads a naive datetime is taken from the source of its _date_to_unix).
   R16.h  what the application stored is written back: should_save (what save_cookie consults), looked up along the MRO of
          JSONCookie, is the dependency's (= modified) or an override that narrows it only by comparing the contents with a
          snapshot that shares no mutable object with the live cookie (deepcopy / a serialised form; a shallow copy or an alias
@@ -152,6 +156,7 @@ def run(rep):
     rep.assume('json.loads returns str values with unpaired surrogates for escapes such as "\\ud83d"; json.dumps emits ASCII only '
                'unless ensure_ascii is false; str.encode with the strict handler raises on unpaired surrogates for every codec')
     rep.assume('secure-cookie 0.1.0 as parsed from site-packages/secure_cookie/cookie.py')
+    rep.assume('werkzeug\'s Response.set_cookie reads a naive datetime ``expires`` the way the dependency\'s _date_to_unix does (as UTC)')
     try:
         cx = _Ctx(rep)
     except AnalysisError:
@@ -1064,9 +1069,12 @@ def rule_d(rep, cx):
 
 def _set_expires(rep, cx):
     """The application's side of the expiry: JSONCookie.set_expires(t) is how an endpoint ends or limits a session, and the stamp
-    and save_cookie defer to what it leaves in the cookie.  On every normal path it records an expiry under the key the dependency's
-    unserialize compares with the clock, unconditionally (an entry that is there already is replaced), and what it records is its
-    argument on some path (a constant stands in for the NOW marker only)."""
+    and save_cookie defer to what it leaves in the cookie.  For every *time* it can be given -- the NOW marker, zero ("expired at
+    the epoch"), any other number -- each normal path records an expiry under the key the dependency's unserialize compares with
+    the clock, unconditionally (an entry that is there already is replaced, and is not removed again), and what it records is its
+    argument on some path (a constant stands in for the NOW marker only).  The function is evaluated over a finite domain of
+    *kinds* of argument (None / 0 / a non-zero number / the marker): a guard on the truth value of the argument excludes 0, a
+    legal time, along with None; what it does for None (withdraw the expiry, store it, refuse) is not judged."""
     from ..effects import Flow
     dep_keys = set(n.value for c in walk_body(cx.un.node) if isinstance(c, ast.Compare) and any(isinstance(o, (ast.Gt, ast.Lt, ast.GtE, ast.LtE)) for o in c.ops)
                    for x in ast.walk(c) if isinstance(x, ast.Subscript) for n in ast.walk(x.slice) if isinstance(n, ast.Constant) and isinstance(n.value, str))
@@ -1077,8 +1085,7 @@ def _set_expires(rep, cx):
     if 'self' not in se.params() or len(ps) != 1:
         raise AnalysisError('JSONCookie.set_expires: signature (self, <time>) not found')
     stores = [st for st, only_if_absent in _stamps(cx, se, 'self') if not only_if_absent]
-    cfg = cfg_of(se)
-    always = bool(stores) and cfg.must_pass(cfg.nodes_of_all(stores), cfg.entry, cfg.exit, normal_only=True)
+    lost = _unrecorded_times(cx, se, ps[0], stores) if stores else []
     fl = Flow(se)
     given = False
     for st in stores:
@@ -1086,13 +1093,184 @@ def _set_expires(rep, cx):
         if v is None:
             raise AnalysisError('JSONCookie.set_expires: the value stored by %s is not followed' % short(st, 40))
         given = given or any(_is_param(fl, lf.value, lf.stmt, ps[0]) for lf in fl.leaves(v, st) if lf.stmt is not None)
-    ok = always and given
+    ok = bool(stores) and not lost and given
     rep.check('R16.d', fkey(se, 'records the expiry'), ok,
-              'set_expires() stores its argument under %r, the key the dependency compares with the clock, on every path' % EXPIRES if ok else
-              ('set_expires() %s: the expiry an endpoint sets (set_expires(NOW) to end a session) is not in the signed data, the cookie stays valid '
-               'and is presented again' % ('never stores anything under %r, the key the dependency compares with the clock' % EXPIRES if not stores else
-                                           'can return without having replaced the %r entry' % EXPIRES if not always else
-                                           'does not store the time it is given')), se.mod, stores[0] if stores else se.node)
+              'set_expires() stores the time it is given (the marker, 0 or any other number) under %r, the key the dependency compares with '
+              'the clock, on every path' % EXPIRES if ok else
+              ('set_expires() %s: the expiry an endpoint sets (set_expires(NOW) / set_expires(0) to end a session) is not in the signed data, the cookie '
+               'stays valid and is presented again' % ('never stores anything under %r, the key the dependency compares with the clock' % EXPIRES if not stores else
+                                                       'given %s can return without an %r entry of its own%s' % (' / '.join(k for k, _ in lost), EXPIRES,
+                                                                                                               _guard_text(lost)) if lost else
+                                                       'does not store the time it is given')), se.mod, stores[0] if stores else se.node)
+
+
+ARG_NONE, ARG_ZERO, ARG_NUM, ARG_MARK, ARG_OTHER = 'None', '0', 'a non-zero number', 'the NOW marker', 'some other value'
+TIME_ARGS = (ARG_ZERO, ARG_NUM, ARG_MARK)
+REMOVERS = ('pop', 'clear', 'popitem')
+
+
+def _guard_text(lost):
+    """The last test on the way to the exit without a stored entry; for 0, what is wrong with testing the truth value of a time."""
+    for kind, path in lost:
+        if path:
+            t, pol = path[-1]
+
+            def truthiness(x):
+                return isinstance(x, ast.Name) or (isinstance(x, ast.UnaryOp) and isinstance(x.op, ast.Not) and truthiness(x.operand)) or \
+                    (isinstance(x, ast.BoolOp) and any(truthiness(y) for y in x.values))
+            return ' (after: %s%s%s)' % ('' if pol else 'not ', short(t, 40),
+                                         ' -- the truth value of a time is false for 0, "expired at the epoch", a legal time: "is None" is the test for "no time given"'
+                                         if kind == ARG_ZERO and truthiness(t) else '')
+    return ''
+
+
+def _kind_of_const(cx, v):
+    if v is None:
+        return ARG_NONE
+    if isinstance(v, (int, float)) and not isinstance(v, bool):
+        return ARG_ZERO if v == 0 else ARG_NUM
+    try:
+        if v == cx.fold(ast.Name(id='NOW', ctx=ast.Load())):
+            return ARG_MARK
+    except Exception:
+        pass
+    return ARG_OTHER
+
+
+def _truth3(cx, t, param, kind):
+    """Three-valued outcome of test ``t`` when the local ``param`` holds a value of ``kind``: True / False / None (not decided).
+    Only the *kind* is known, never the number: ``x > 5`` is undecided for a non-zero number, decided for 0."""
+    if isinstance(t, ast.UnaryOp) and isinstance(t.op, ast.Not):
+        r = _truth3(cx, t.operand, param, kind)
+        return None if r is None else not r
+    if isinstance(t, ast.BoolOp):
+        rs = [_truth3(cx, x, param, kind) for x in t.values]
+        if isinstance(t.op, ast.And):
+            return False if False in rs else None if None in rs else True
+        return True if True in rs else None if None in rs else False
+    if isinstance(t, ast.Name) and t.id == param:
+        return {ARG_NONE: False, ARG_ZERO: False, ARG_NUM: True, ARG_MARK: bool(cx.fold(ast.Name(id='NOW', ctx=ast.Load())))}.get(kind)
+    if isinstance(t, ast.Call) and isinstance(t.func, ast.Name) and t.func.id == 'isinstance' and len(t.args) == 2 and norm(t.args[0]) == param:
+        names = set(norm(x).rpartition('.')[2] for x in (t.args[1].elts if isinstance(t.args[1], ast.Tuple) else [t.args[1]]))
+        if names <= {'int', 'float', 'Number', 'Real', 'Integral', 'str', 'bytes', 'type(None)', 'NoneType'} and kind != ARG_OTHER:
+            numeric = bool(names & {'int', 'float', 'Number', 'Real', 'Integral'})
+            return {ARG_NONE: bool(names & {'type(None)', 'NoneType'}), ARG_ZERO: numeric, ARG_NUM: numeric, ARG_MARK: 'str' in names}[kind]
+        return None
+    if isinstance(t, ast.Compare) and len(t.ops) == 1:
+        op, l, r = t.ops[0], t.left, t.comparators[0]
+        if norm(r) == param and norm(l) != param:
+            flip = {ast.Lt: ast.Gt, ast.Gt: ast.Lt, ast.LtE: ast.GtE, ast.GtE: ast.LtE}
+            l, r, op = r, l, flip.get(type(op), type(op))()
+        if norm(l) != param or kind == ARG_OTHER:
+            return None
+        c = cx.fold(r)
+        if c is _NOFOLD:
+            return None
+        if isinstance(op, (ast.In, ast.NotIn)):
+            if not isinstance(c, (tuple, list, set, frozenset)):
+                return None
+            rs = [_eq3(cx, kind, x) for x in c]
+            res = True if True in rs else None if None in rs else False
+            return res if isinstance(op, ast.In) or res is None else not res
+        if isinstance(op, (ast.Is, ast.IsNot)):
+            res = (kind == ARG_NONE) if c is None else None
+            return res if isinstance(op, ast.Is) or res is None else not res
+        if isinstance(op, (ast.Eq, ast.NotEq)):
+            res = _eq3(cx, kind, c)
+            return res if isinstance(op, ast.Eq) or res is None else not res
+        if isinstance(c, (int, float)) and not isinstance(c, bool) and kind == ARG_ZERO:
+            return {ast.Lt: 0 < c, ast.LtE: 0 <= c, ast.Gt: 0 > c, ast.GtE: 0 >= c}.get(type(op))
+    return None
+
+
+def _eq3(cx, kind, c):
+    """``x == c`` for a value x of the given kind and the constant c."""
+    ck_ = _kind_of_const(cx, c)
+    if kind in (ARG_NONE, ARG_ZERO, ARG_MARK):
+        return ck_ == kind
+    if kind == ARG_NUM:
+        return None if ck_ == ARG_NUM else False
+    return None
+
+
+def _unrecorded_times(cx, fi, param, stores):
+    """[(kind of argument, [guards taken])] for the times set_expires can be given and return -- on some normal path -- without
+    an expiry entry stored by that call still in place.  Abstract evaluation over the CFG: a state is (kind the argument had on
+    entry, kind the local holds now, is the entry stored, the tests that decided the path); a branch is taken when the test is
+    true, or undecided, for the kind the local holds."""
+    cfg = cfg_of(fi)
+    store_ids = set(id(st) for st in stores)
+    states = dict((n.id, set()) for n in cfg.nodes)
+    todo = []
+    for k in (ARG_NONE,) + TIME_ARGS:
+        states[cfg.entry].add((k, k, False, ()))
+    todo.append(cfg.entry)
+    steps = 0
+    while todo:
+        steps += 1
+        if steps > 20000:
+            raise AnalysisError('%s: too many paths to evaluate' % fi.qualname)
+        n = todo.pop()
+        nd = cfg.nodes[n]
+        out = set()
+        for orig, cur, stored, why in states[n]:
+            if nd.kind == 'branch':
+                r = _truth3(cx, nd.test, param, cur)
+                if r is not None and r is not nd.pol:
+                    continue
+                out.add((orig, cur, stored, (why + ((nd.test, nd.pol),))[-4:] if (nd.test, nd.pol) not in why else why))
+            elif nd.kind == 'stmt' and nd.stmt is not None:
+                st = nd.stmt
+                if id(st) in store_ids:
+                    stored = True
+                elif _removes_expiry(cx, st):
+                    stored = False
+                tg = st.targets if isinstance(st, ast.Assign) else [st.target] if isinstance(st, (ast.AugAssign, ast.AnnAssign)) else []
+                for t in tg:
+                    if any(isinstance(x, ast.Name) and x.id == param for x in ast.walk(t)):
+                        cur = _rebound_kind(cx, st, param, cur) if isinstance(st, ast.Assign) and isinstance(t, ast.Name) else ARG_OTHER
+                out.add((orig, cur, stored, why))
+            else:
+                out.add((orig, cur, stored, why))
+        for m in cfg.succ[n]:
+            if (n, m) in cfg.exc_edges:
+                continue
+            new = out - states[m]
+            if new:
+                states[m] |= new
+                todo.append(m)
+    lost = {}
+    for orig, cur, stored, why in states[cfg.exit]:
+        if orig in TIME_ARGS and not stored:
+            lost.setdefault(orig, list(why))
+    return sorted(lost.items())
+
+
+def _rebound_kind(cx, st, param, cur):
+    """Kind of value the local holds after ``param = <value>``."""
+    v = st.value
+    if isinstance(v, ast.Name) and v.id == param:
+        return cur
+    if isinstance(v, ast.BoolOp) and len(v.values) == 2 and isinstance(v.values[0], ast.Name) and v.values[0].id == param:
+        truth = _truth3(cx, v.values[0], param, cur)
+        c = cx.fold(v.values[1])
+        other = _kind_of_const(cx, c) if c is not _NOFOLD else ARG_OTHER
+        if truth is None:
+            return ARG_OTHER
+        return (cur if truth else other) if isinstance(v.op, ast.Or) else (other if truth else cur)
+    c = cx.fold(v)
+    return _kind_of_const(cx, c) if c is not _NOFOLD else ARG_OTHER
+
+
+def _removes_expiry(cx, st):
+    """``self.pop('_expires', ..)`` / ``del self['_expires']`` / ``self.clear()``: the entry is gone again."""
+    if isinstance(st, ast.Delete):
+        return any(isinstance(t, ast.Subscript) and norm(t.value) == 'self' and cx.fold(t.slice) in (EXPIRES, _NOFOLD) for t in st.targets)
+    for c in ast.walk(st):
+        if isinstance(c, ast.Call) and isinstance(c.func, ast.Attribute) and norm(c.func.value) == 'self' and c.func.attr in REMOVERS:
+            if c.func.attr != 'pop' or not c.args or cx.fold(c.args[0]) in (EXPIRES, _NOFOLD):
+                return True
+    return False
 
 
 def _holds_next_result(fl, name, at, nd, depth):
@@ -1718,6 +1896,19 @@ def _is_sentinel(cx, fi, fl, e):
     return not any(isinstance(g, ast.Global) and set(own) & set(g.names) for g in ast.walk(m.tree))
 
 
+def _pure_accessor(cx, name):
+    """A method the cookie class defines in the analysed tree that writes nothing to the cookie (no store / delete / mutating call
+    rooted at ``self``) and calls no other method of it."""
+    from ..effects import effects_in
+    m = cx.repo.find_method(cx.ck.cls('JSONCookie'), name)
+    if m is None or m.mod.external or 'self' not in m.params():
+        return False
+    if any(ef.root == 'self' for ef in effects_in(m.node)):
+        return False
+    return not any(isinstance(c, ast.Call) and isinstance(c.func, ast.Attribute) and norm(c.func.value) == 'self' and c.func.attr not in READ_ONLY_METHODS
+                   for c in walk_body(m.node))
+
+
 READ_ONLY_METHODS = ('get', 'keys', 'values', 'items', 'copy', '__contains__', '__getitem__', '__len__', '__iter__')
 
 
@@ -1750,7 +1941,7 @@ def _changed_since(cx, fi, names, lookup_stmts, stamp, ignore=(), avoid=()):
                 if isinstance(c.func, ast.Name) and c.func.id == 'next':
                     return c
                 if isinstance(c.func, ast.Attribute) and norm(c.func.value) in names:
-                    if c.func.attr not in READ_ONLY_METHODS:
+                    if c.func.attr not in READ_ONLY_METHODS and not _pure_accessor(cx, c.func.attr):
                         return c
                     continue
                 if any(isinstance(x, ast.Name) and x.id in names for a in list(c.args) + [k.value for k in c.keywords] for x in ast.walk(a)):
@@ -2181,21 +2372,21 @@ def rule_g(rep, cx):
                   % (t[0][0], short(t[0][1], 40)), ck, c)
         # ... and it is the cookie's own entry: the dependency's serialize(expires) overwrites cookie['_expires'] with whatever it is
         # given, so anything else replaces an expiry the application set (set_expires(NOW) to end a session) by the middleware's own
-        foreign = []
+        foreign, kinds = [], []
+        jc = ck.cls('JSONCookie')
         for nm, e, lat in srcs:
             if nm == '**' or not isinstance(e, ast.AST) or lat is None:
                 continue
-            for lf in fl.leaves(e, lat, list(conds(rq, lat))):
-                if lf.opaque and not isinstance(lf.value, (ast.Subscript, ast.Call, ast.Constant)):
-                    raise AnalysisError('SignedCookieMiddleware.request: the value handed to save_cookie as %s (%s) is not followed' % (nm, short(lf.value, 40)))
-                if not _own_expiry(cx, rq, fl, e, lf.value, lf, names):
-                    foreign.append((nm, lf.value, None))
-                elif lf.stmt is not None and any(_expiry_read(cx, x, names) for x in ast.walk(lf.value)):
+            for own, kind, node, read_at in _expiry_values(cx, jc, rq, fl, e, lat, names, list(conds(rq, lat)), 0):
+                kinds.append((nm, kind, node))
+                if not own:
+                    foreign.append((nm, node, None))
+                elif read_at is not None:
                     # the entry as it is when the cookie is saved: read after the endpoint ran (the stamp only fills an entry that is absent)
-                    others = [d.stmt for d in fl.defs.get(e.id, []) if d.stmt is not None and d.stmt is not lf.stmt] if isinstance(e, ast.Name) else []
-                    ch = _changed_since(cx, rq, names, [lf.stmt], at, ignore=stamps, avoid=others)
+                    others = [d.stmt for d in fl.defs.get(e.id, []) if d.stmt is not None and d.stmt is not read_at] if isinstance(e, ast.Name) else []
+                    ch = _changed_since(cx, rq, names, [read_at], at, ignore=stamps, avoid=others)
                     if ch is not None:
-                        foreign.append((nm, lf.value, ch))
+                        foreign.append((nm, node, ch))
         rep.check('R16.g', fkey(rq, 'signed expiry is the cookie\'s own'), not foreign,
                   'what save_cookie is told to sign as the expiry is the _expires entry the cookie holds (stamped or set by the application), or nothing'
                   if not foreign else
@@ -2203,6 +2394,24 @@ def rule_g(rep, cx):
                   'application set in the endpoint (set_expires(NOW) to invalidate the cookie) is replaced and the data stays valid'
                   % (foreign[0][0], short(foreign[0][1], 40), '' if foreign[0][2] is None else
                      ', and the entry was read before %s ran' % short(foreign[0][2], 40)), ck, c)
+        # ... in a kind of time value the dependency reads as the instant that was meant: an epoch number is zone-free, an aware
+        # datetime says its zone, a naive datetime is read in ONE of two ways by the code that converts it -- which one is a fact of
+        # the pinned dependency (_date_to_unix), read from its source
+        naive_is = _naive_reading(cx)
+        undecided = [(nm, n) for nm, k, n in kinds if k == T_UNKNOWN]
+        if undecided and not foreign:
+            raise AnalysisError('SignedCookieMiddleware.request: what kind of time value save_cookie gets as %s (%s) is not followed'
+                                % (undecided[0][0], short(undecided[0][1], 50)))
+        wrong = [(nm, k, n) for nm, k, n in kinds if k in (T_NAIVE_LOCAL, T_NAIVE_UTC, T_MISREAD) and k != naive_is]
+        rep.check('R16.g', fkey(rq, 'signed expiry: kind of time value'), not wrong,
+                  'the expiry handed to the dependency is %s' % (' / '.join(sorted(set(k for _, k, _ in kinds))) or 'nothing') if not wrong else
+                  'save_cookie(%s=..) is given %s, which is %s; %s stores the result into '
+                  'cookie[\'_expires\'] before signing: the signed expiry is off by the server\'s UTC offset -- east of UTC the data is still presented '
+                  'hours after it expired (and an application\'s set_expires(t) is shifted the same way)'
+                  % (wrong[0][0], short(wrong[0][2], 50), wrong[0][1],
+                     'the dependency converts it back (_date_to_unix) and' if wrong[0][1] == T_MISREAD else
+                     'the dependency reads a naive datetime as %s (_date_to_unix) and' % ('UTC wall-clock time' if naive_is == T_NAIVE_UTC else 'local wall-clock time')),
+                  cx.home(wrong[0][2]) if wrong else ck, wrong[0][2] if wrong else c)
     rep.floor('R16.g', 4)
 
 
@@ -2214,34 +2423,141 @@ def _expiry_read(cx, x, names):
         bool(x.args) and cx.fold(x.args[0]) == EXPIRES
 
 
-def _own_expiry(cx, fi, fl, use, v, lf, names):
-    """The value ``v`` (a leaf of the expression ``use`` handed to save_cookie as the expiry to sign) is the cookie's own expiry
-    entry: a lookup of it (``cookie['_expires']``, ``cookie.get('_expires'[, None])``; with a sentinel default only where the path
-    conditions exclude the sentinel), the value a chained assignment stores into the entry at the same time, a false constant (the
-    dependency then leaves the entry alone) -- or anything at all where the path conditions say the cookie has no entry."""
+# Kinds of time value (a finite domain: which *kind* an expression denotes, never which instant)
+T_NONE, T_EPOCH, T_AWARE, T_NAIVE_UTC, T_NAIVE_LOCAL, T_MISREAD, T_UNKNOWN = (
+    'nothing', 'seconds since the epoch', 'an aware datetime', 'a naive datetime holding UTC wall-clock time',
+    'a naive datetime holding the server\'s local wall-clock time', 'a datetime converted as if it held the other zone\'s wall-clock time', 'unknown')
+DT = 'datetime.datetime.'
+
+
+def _naive_reading(cx):
+    """How the pinned dependency reads a naive datetime handed to serialize(): ``utctimetuple()`` -> as UTC, ``timetuple()`` +
+    ``mktime`` -> as local time.  Read from the source of the function serialize() converts its argument with."""
+    ser = cx.dep.func('SecureCookie.serialize')
+    convs = [c for c in walk_body(ser.node) if isinstance(c, ast.Call) and isinstance(c.func, ast.Name) and
+             any(isinstance(x, ast.Name) and x.id in ser.params() for a in c.args for x in ast.walk(a))]
+    for c in convs:
+        kind, m, fn = cx.repo.resolve(cx.dep, c.func.id)
+        if kind != 'func':
+            continue
+        tails = set(call_tail(x) for x in walk_body(fn.node) if isinstance(x, ast.Call))
+        if 'utctimetuple' in tails and not tails & {'mktime', 'timetuple'}:
+            return T_NAIVE_UTC
+        if tails & {'mktime'} and 'utctimetuple' not in tails:
+            return T_NAIVE_LOCAL
+    raise AnalysisError('secure_cookie serialize(): how a datetime expiry is converted is not recognised (model out of date)')
+
+
+def _libname(fi, e):
+    """Dotted name of the library object an expression denotes (through imports / ``as`` / aliases); None otherwise."""
+    from .c14 import _qual, _Ctx as _C14Ctx
+    try:
+        return _qual(_C14Ctx(fi.mod, fi), e)
+    except AnalysisError:
+        raise
+    except Exception:
+        return None
+
+
+def _is_utc_zone(fi, e):
+    from .c14 import _UTC_TZ_NAMES, _UTC_TZ_CALLS
+    return _libname(fi, e) in _UTC_TZ_NAMES or (isinstance(e, ast.Call) and not e.args and _libname(fi, e.func) in _UTC_TZ_CALLS)
+
+
+def _expiry_values(cx, jc, fi, fl, e, at, names, cs, depth):
+    """Abstract values of an expression handed to the dependency as the expiry to sign: [(own, kind, node, read_at)] --
+    ``own``: it is the cookie's own expiry entry (a lookup of it, a conversion of one, what an accessor method of the cookie class
+    returns for it, the value a chained assignment stores into the entry, a false constant) or the path conditions say the cookie
+    has no entry; ``kind``: one of the T_* kinds; ``read_at``: the statement of this function in which the entry was read."""
+    if depth > 6:
+        raise AnalysisError('%s: the expiry value %s is too deep to follow' % (fi.qualname, short(e, 40)))
+    out = []
+    for lf in fl.leaves(e, at, list(cs)):
+        if lf.opaque and not isinstance(lf.value, (ast.Subscript, ast.Call, ast.Constant)):
+            raise AnalysisError('%s: the value handed on as the expiry (%s) is not followed' % (fi.qualname, short(lf.value, 40)))
+        out += _expiry_value(cx, jc, fi, fl, e, lf.value, lf, names, depth)
+    return out
+
+
+def _expiry_value(cx, jc, fi, fl, use, v, lf, names, depth):
+    absent = any(_absent_cond(cx, fi, fl, t, p, names) is not None for t, p in lf.conds)
+    sub = lambda x: [r for y in [x] for r in _expiry_value(cx, jc, fi, fl, use, y, lf, names, depth + 1)] if not isinstance(x, ast.Name) else \
+        _expiry_values(cx, jc, fi, fl, x, lf.stmt, names, lf.conds, depth + 1)
+    if depth > 8:
+        raise AnalysisError('%s: the expiry value %s is too deep to follow' % (fi.qualname, short(v, 40)))
     if isinstance(v, ast.BoolOp):
-        return all(_own_expiry(cx, fi, fl, use, x, lf, names) for x in v.values)
-    if isinstance(v, ast.Constant) and not v.value:
-        return True
+        return [r for x in v.values for r in sub(x)]
+    if isinstance(v, ast.Constant):
+        if not v.value:
+            return [(True, T_NONE, v, None)]
+        return [(absent, T_EPOCH if isinstance(v.value, (int, float)) else T_UNKNOWN, v, None)]
     if isinstance(v, ast.Subscript) and norm(v.value) in names and cx.fold(v.slice) == EXPIRES:
-        return True
-    if isinstance(v, ast.Call) and isinstance(v.func, ast.Attribute) and v.func.attr == 'get' and norm(v.func.value) in names \
-            and not any(isinstance(a, ast.Starred) for a in v.args) and not any(k.arg is None for k in v.keywords):
-        k, d = argn(v, 'key', 0), argn(v, 'default', 1)
-        if k is not None and cx.fold(k) == EXPIRES:
-            if d is None or (isinstance(d, ast.Constant) and not d.value):
-                return True
-            if _is_sentinel(cx, fi, fl, d):
-                for t, p in lf.conds:
-                    if isinstance(t, ast.Compare) and len(t.ops) == 1 and isinstance(t.ops[0], (ast.Is, ast.IsNot)) and isinstance(t.ops[0], ast.IsNot) is p:
-                        sides = [t.left, t.comparators[0]]
-                        if any(isinstance(x, ast.Name) and x.id == d.id for x in sides) and any(norm(x) in (norm(use), norm(v)) for x in sides):
-                            return True
+        return [(True, T_EPOCH, v, lf.stmt)]
     st = lf.stmt
     if isinstance(st, ast.Assign) and st.value is v and any(isinstance(t, ast.Subscript) and norm(t.value) in names and cx.fold(t.slice) == EXPIRES
                                                             for t in st.targets):
-        return True
-    return any(_absent_cond(cx, fi, fl, t, p, names) is not None for t, p in lf.conds)
+        return [(True, T_EPOCH, v, None)]
+    if isinstance(v, ast.Call) and not any(isinstance(a, ast.Starred) for a in v.args) and not any(k.arg is None for k in v.keywords):
+        f = v.func
+        if isinstance(f, ast.Attribute) and f.attr == 'get' and norm(f.value) in names:
+            k, d = argn(v, 'key', 0), argn(v, 'default', 1)
+            if k is not None and cx.fold(k) == EXPIRES:
+                own = d is None or (isinstance(d, ast.Constant) and not d.value)
+                if not own and _is_sentinel(cx, fi, fl, d):
+                    for t, p in lf.conds:
+                        if isinstance(t, ast.Compare) and len(t.ops) == 1 and isinstance(t.ops[0], (ast.Is, ast.IsNot)) and isinstance(t.ops[0], ast.IsNot) is p:
+                            sides = [t.left, t.comparators[0]]
+                            if any(isinstance(x, ast.Name) and x.id == d.id for x in sides) and any(norm(x) in (norm(use), norm(v)) for x in sides):
+                                own = True
+                return [(own or absent, T_EPOCH, v, lf.stmt)]
+        q = _libname(fi, f)
+        if q in ('int', 'float', 'round') and len(v.args) == 1 and not v.keywords:
+            return [(o, k if k in (T_EPOCH, T_NONE) else T_UNKNOWN, v, r) for o, k, _, r in sub(v.args[0])]
+        if q == DT + 'utcfromtimestamp' and len(v.args) == 1 and not v.keywords:
+            return [(o, T_NAIVE_UTC if k == T_EPOCH else T_UNKNOWN, v, r) for o, k, _, r in sub(v.args[0])]
+        if q == DT + 'fromtimestamp' and v.args:
+            tz = argn(v, 'tz', 1)
+            zoned = tz is not None and not (isinstance(tz, ast.Constant) and tz.value is None)
+            return [(o, (T_AWARE if zoned else T_NAIVE_LOCAL) if k == T_EPOCH else T_UNKNOWN, v, r) for o, k, _, r in sub(v.args[0])]
+        if q in (DT + 'now', DT + 'today', DT + 'utcnow'):
+            tz = argn(v, 'tz', 0) if q == DT + 'now' else None
+            zoned = tz is not None and not (isinstance(tz, ast.Constant) and tz.value is None)
+            return [(absent, T_AWARE if zoned else T_NAIVE_UTC if q == DT + 'utcnow' else T_NAIVE_LOCAL, v, None)]
+        if q in ('time.time',) and not v.args:
+            return [(absent, T_EPOCH, v, None)]
+        if isinstance(f, ast.Attribute) and f.attr == 'replace' and [k.arg for k in v.keywords] == ['tzinfo'] and not v.args:
+            utc = _is_utc_zone(fi, v.keywords[0].value)
+            return [(o, T_AWARE if k == T_NAIVE_UTC and utc else T_MISREAD if k in (T_NAIVE_LOCAL, T_NAIVE_UTC) else k if k == T_NONE else T_UNKNOWN, v, r)
+                    for o, k, _, r in sub(f.value)]
+        if isinstance(f, ast.Attribute) and f.attr == 'astimezone':
+            # (a naive datetime is taken to hold local time by astimezone())
+            return [(o, T_AWARE if k in (T_NAIVE_LOCAL, T_AWARE) else T_MISREAD if k == T_NAIVE_UTC else T_UNKNOWN, v, r) for o, k, _, r in sub(f.value)]
+        if isinstance(f, ast.Attribute) and norm(f.value) in names and not v.args and not v.keywords:
+            callee = cx.repo.find_method(jc, f.attr)
+            if callee is not None and not callee.mod.external and callee.params() == ['self'] and not callee.node.decorator_list:
+                # an accessor of the cookie class: what it returns, with ``self`` the cookie
+                from ..effects import Flow
+                cfl = Flow(callee)
+                ccfg = cfg_of(callee)
+                rets = returns_of(callee)
+                res = []
+                for r in rets:
+                    if r.value is None:
+                        res.append((True, T_NONE, r, None))
+                    else:
+                        res += _expiry_values(cx, jc, callee, cfl, r.value, r, {'self'}, list(conds(callee, r)), depth + 1)
+                if not rets or ccfg.exit in ccfg.reach([ccfg.entry], avoid=set(ccfg.nodes_of_all(rets)), normal_only=True):
+                    res.append((True, T_NONE, callee.node, None))
+                # the cookie is consulted where the accessor is called
+                return [(o or absent, k, n, lf.stmt if (r is not None or o) and k != T_NONE else None) for o, k, n, r in res]
+    if isinstance(v, ast.BinOp) and isinstance(v.op, (ast.Add, ast.Sub)):
+        parts = sub(v.left) + sub(v.right)
+        ks = set(k for _, k, _, _ in parts)
+        return [(absent, T_EPOCH if ks <= {T_EPOCH} else T_UNKNOWN, v, None)]
+    if isinstance(v, (ast.Attribute, ast.Name)):
+        # configuration (self.expiry) / an argument: a number of seconds as far as its kind goes
+        return [(absent, T_EPOCH, v, None)]
+    return [(absent, T_UNKNOWN, v, None)]
 
 
 # ---------------------------------------------------------------------------------------------- R16.h
